@@ -1,5 +1,6 @@
 import HtaVerif.Model.C09
 import HtaVerif.Proofs.C09
+import HtaVerif.Props.C08
 /-!
 # C09 — the reported critical path is a maximum-weight path of the graph
 
@@ -160,5 +161,37 @@ example : EdgesUnique [⟨0, 1, 5⟩, ⟨1, 2, 0⟩, ⟨0, 2, 3⟩] ∧ [0, 1, 2
 
 example : pathWeight [⟨0, 1, 5⟩, ⟨1, 2, 0⟩, ⟨0, 2, 3⟩] [0, 1, 2] = 5 ∧
     best (dp [⟨0, 1, 5⟩, ⟨1, 2, 0⟩, ⟨0, 2, 3⟩] [0, 1, 2]) = 5 := by decide
+
+section BuiltGraph
+open Hta.C08
+
+/-- **The makespan clause for the graph the analysis builds.** Number the nodes of the built graph in any way
+(`num`; networkx numbers them in creation order) and let `ts'` give each number its node's time. Under the
+trace-level hypotheses of `C08_graph_forward_of_trace` every path of the graph — in particular the reported
+critical path — weighs at most the time from its first to its last node, hence at most the makespan of the
+analysed window. -/
+theorem C09_built_graph_path_within_makespan (rows : List Row) (ws : Waits) (w : Int × Int) (zl : Bool)
+    (hrows : ∀ r ∈ clip rows w, findRow rows r.idx = some r)
+    (hunique : (clip rows w).Pairwise fun a b => a.idx ≠ b.idx)
+    (hdur : ∀ r ∈ clip rows w, 0 ≤ r.dur)
+    (hwf : ∀ t ∈ C13.threadsOf (clip rows w), C03.WF ((C13.threadRows (clip rows w) t).map fun r => (⟨r.idx, r.ts, max r.dur 0⟩ : C03.Ev)))
+    (htc : TraceCausal rows (clip rows w) ws (kernelRows rows (clip rows w)))
+    (num : NodeId → Nat) (ts' : Nat → Int) (hts : ∀ n, ts' (num n) = tsOf rows n)
+    (a : Nat) (rest : List Nat)
+    (hp : isPath ((build rows ws w zl).2.edges.map fun e => (⟨num e.src, num e.dst, e.weight⟩ : WEdge)) (a :: rest) = true) :
+    pathWeight ((build rows ws w zl).2.edges.map fun e => (⟨num e.src, num e.dst, e.weight⟩ : WEdge)) (a :: rest)
+      ≤ ts' ((a :: rest).getLast (by simp)) - ts' a := by
+  apply C09_path_le_makespan _ ts' _ a rest hp
+  intro e he
+  obtain ⟨e0, he0, rfl⟩ := List.mem_map.mp he
+  have hf := (C08_graph_forward_of_trace rows ws w zl hrows hunique hdur hwf htc).1 e0 he0
+  have hw := (C08_edge_weight_rule rows ws w zl e0 he0).2
+  simp only [hts]
+  unfold Forward at hf
+  rcases hw with h | h
+  · rw [h]; omega
+  · rw [h]; omega
+
+end BuiltGraph
 
 end Hta.C09
